@@ -471,6 +471,8 @@ func errClassOf(msg string) string {
 		return "bad-closure"
 	case has("unknown builtin"):
 		return "unknown-builtin"
+	case has("invalid number of arguments for builtin"):
+		return "builtin-arity"
 	case has("pointer accessor outside closure"):
 		return "pointer-outside"
 	case has("as array"):
